@@ -357,10 +357,6 @@ theorem hvals_setB_rc {h : Heap} {id : Nat} {b : Block} (hb : getB h id = .ok b)
 
 /-! ## the reference-count invariant -/
 
-def isObjV : V → Bool
-  | .obj _ => true
-  | _ => false
-
 /-- `R` = the values held outside the heap (root variables and the temporaries of the running operation) -/
 structure WF (h : Heap) (R : List V) : Prop where
   /-- every handle points to a live block of its kind -/
@@ -2450,6 +2446,8 @@ theorem cloneOK : ∀ f, CloneOK f
           exact this
         have := Inv.alloc (σ := { σ with heap := h1 }) (T := T)
           (b := { isObj := b.isObj, items := items', cap := max items'.length 3, rc := 1 }) (by simpa [bvals] using inv1) rfl hsorted
+        simp only [] at this
+        rw [← hk]
         exact ⟨_, _, rfl, this, ⟨y ++ [_], by rw [hy, List.append_assoc]⟩⟩
 
 
@@ -3036,6 +3034,482 @@ theorem Inv.init (n : Nat) : Inv (initState n) [] := by
   · intro id b hb; simp [initState, getB] at hb
   · intro id b hb; simp [initState, getB] at hb
   · intro id b hb; simp [initState, getB] at hb
+
+
+
+
+/-! ## content is a function of the reachable blocks -/
+
+theorem mapO_congr_some {α β : Type} {g g' : α → Option β} : ∀ {l : List α} {ys : List β}, mapO l g = some ys →
+    (∀ x ∈ l, ∀ y, g x = some y → g' x = some y) → mapO l g' = some ys
+  | [], ys, h, _ => by simpa [mapO] using h
+  | x :: xs, ys, h, hg => by
+    simp only [mapO] at h ⊢
+    cases hx : g x with
+    | none => simp [hx] at h
+    | some y =>
+      simp only [hx] at h
+      cases hxs : mapO xs g with
+      | none => simp [hxs] at h
+      | some ys' =>
+        simp only [hxs] at h
+        rw [hg x (by simp) y hx, mapO_congr_some hxs (fun z hz => hg z (by simp [hz]))]
+        exact h
+
+theorem anyE_false {α : Type} {p : α → Except Err Bool} : ∀ {l : List α}, anyE l p = .ok false → ∀ x ∈ l, p x = .ok false
+  | [], _, x, hx => by cases hx
+  | y :: ys, h, x, hx => by
+    simp only [anyE] at h
+    cases hy : p y with
+    | error e => simp [hy] at h
+    | ok b =>
+      cases b with
+      | true => simp [hy] at h
+      | false =>
+        simp only [hy] at h
+        rcases List.mem_cons.mp hx with rfl | hx
+        · exact hy
+        · exact anyE_false h x hx
+
+theorem content_scalar_indep {v : V} (hv : handleOf v = none) (f : Nat) (h h1 : Heap) : content f h1 v = content f h v := by
+  cases f with
+  | zero => rfl
+  | succ f => cases v <;> simp [handleOf] at hv <;> rfl
+
+/-- the two heaps hold the same elements in every block other than `B` -/
+def AgreeOutside (B : Nat) (h h1 : Heap) : Prop :=
+  ∀ id, id ≠ B → ∀ b, getB h id = .ok b → ∃ b1, getB h1 id = .ok b1 ∧ b1.items = b.items ∧ b1.isObj = b.isObj
+
+/-- unfolding of `content` at a handle -/
+theorem content_handle {f : Nat} {h : Heap} {v : V} {id : Nat} {b : Block} (hid : handleOf v = some id)
+    (hb : getB h id = .ok b) :
+    content (f + 1) h v =
+      if isObjV v then (mapO b.items (fun kv => (content f h kv.2).map (fun t => (kv.1, t)))).map Tree.obj
+      else (mapO b.items (fun kv => content f h kv.2)).map Tree.arr := by
+  cases v <;> simp [handleOf] at hid <;> subst hid <;> simp [content, hb, isObjV]
+
+theorem content_handle_none {f : Nat} {h : Heap} {v : V} {id : Nat} (hid : handleOf v = some id)
+    (hb : ∀ b, getB h id ≠ .ok b) : content (f + 1) h v = none := by
+  cases hg : getB h id with
+  | ok b => exact absurd hg (hb b)
+  | error e => cases v <;> simp [handleOf] at hid <;> subst hid <;> simp [content, hg]
+
+/-- **frame**: a value that does not reach block `B` denotes the same tree in any heap that agrees outside `B` -/
+theorem content_frame {B : Nat} {h h1 : Heap} (ag : AgreeOutside B h h1) : ∀ (f' f : Nat) (v : V) (t : Tree),
+    reaches f' h B v = .ok false → content f h v = some t → content f h1 v = some t
+  | 0, _, _, _, hr, _ => by simp [reaches] at hr
+  | f' + 1, 0, _, _, _, hc => by simp [content] at hc
+  | f' + 1, f + 1, v, t, hr, hc => by
+    cases hh : handleOf v with
+    | none => rw [content_scalar_indep hh]; exact hc
+    | some id =>
+      simp only [reaches, hh] at hr
+      by_cases he : id = B
+      · simp [he] at hr
+      · simp only [he, if_false] at hr
+        cases hb : getB h id with
+        | error e => simp [hb] at hr
+        | ok b =>
+          simp only [hb] at hr
+          have hch := anyE_false hr
+          obtain ⟨b1, hb1, e1, e2⟩ := ag id he b hb
+          rw [content_handle hh hb] at hc
+          rw [content_handle hh hb1, e1]
+          by_cases ho : isObjV v = true
+          · simp only [ho, if_true] at hc ⊢
+            cases hm : mapO b.items (fun kv => (content f h kv.2).map (fun t => (kv.1, t))) with
+            | none => simp [hm] at hc
+            | some ys =>
+              simp only [hm] at hc
+              rw [mapO_congr_some hm (fun kv hkv y hy => by
+                cases hck : content f h kv.2 with
+                | none => simp [hck] at hy
+                | some tk =>
+                  simp only [hck, Option.map_some] at hy
+                  rw [content_frame ag f' f kv.2 tk (hch kv hkv) hck]
+                  exact hy)]
+              exact hc
+          · simp only [ho] at hc ⊢
+            cases hm : mapO b.items (fun kv => content f h kv.2) with
+            | none => simp [hm] at hc
+            | some ys =>
+              simp only [hm] at hc
+              rw [mapO_congr_some hm (fun kv hkv y hy => content_frame ag f' f kv.2 y (hch kv hkv) hy)]
+              exact hc
+
+/-- heaps that differ only in reference counts denote the same trees -/
+theorem content_same {h h1 : Heap} (e : SameItems h h1) : ∀ (f : Nat) (v : V) (t : Tree),
+    content f h v = some t → content f h1 v = some t
+  | 0, _, _, hc => by simp [content] at hc
+  | f + 1, v, t, hc => by
+    cases hh : handleOf v with
+    | none => rw [content_scalar_indep hh]; exact hc
+    | some id =>
+      cases hb : getB h id with
+      | error e' =>
+        rw [content_handle_none hh (by intro b hb'; rw [hb] at hb'; cases hb')] at hc; cases hc
+      | ok b =>
+        obtain ⟨b1, hb1, e1, _, _⟩ := e.get hb
+        rw [content_handle hh hb] at hc
+        rw [content_handle hh hb1, e1]
+        by_cases ho : isObjV v = true
+        · simp only [ho, if_true] at hc ⊢
+          cases hm : mapO b.items (fun kv => (content f h kv.2).map (fun t => (kv.1, t))) with
+          | none => simp [hm] at hc
+          | some ys =>
+            simp only [hm] at hc
+            rw [mapO_congr_some hm (fun kv _ y hy => by
+              cases hck : content f h kv.2 with
+              | none => simp [hck] at hy
+              | some tk =>
+                simp only [hck, Option.map_some] at hy
+                rw [content_same e f kv.2 tk hck]
+                exact hy)]
+            exact hc
+        · simp only [ho] at hc ⊢
+          cases hm : mapO b.items (fun kv => content f h kv.2) with
+          | none => simp [hm] at hc
+          | some ys =>
+            simp only [hm] at hc
+            rw [mapO_congr_some hm (fun kv _ y hy => content_same e f kv.2 y hy)]
+            exact hc
+
+/-- releases elsewhere do not change what a still-held value denotes -/
+theorem content_sub {h h' : Heap} {R : List V} (sub : SubItems h h') (wf : WF h' R) : ∀ (f : Nat) (v : V) (t : Tree),
+    (v ∈ R ∨ v ∈ hvals h') → content f h v = some t → content f h' v = some t
+  | 0, _, _, _, hc => by simp [content] at hc
+  | f + 1, v, t, hv, hc => by
+    cases hh : handleOf v with
+    | none => rw [content_scalar_indep hh]; exact hc
+    | some id =>
+      obtain ⟨b', hb', _⟩ := wf.live v hv id hh
+      obtain ⟨b, hb, e1, _, _⟩ := sub.2 id b' hb'
+      rw [content_handle hh hb] at hc
+      rw [content_handle hh hb', e1]
+      have hmem : ∀ kv ∈ b.items, kv.2 ∈ R ∨ kv.2 ∈ hvals h' := fun kv hkv =>
+        Or.inr (mem_hvals_of_getB hb' (by rw [bvals, e1]; exact List.mem_map_of_mem hkv))
+      by_cases ho : isObjV v = true
+      · simp only [ho, if_true] at hc ⊢
+        cases hm : mapO b.items (fun kv => (content f h kv.2).map (fun t => (kv.1, t))) with
+        | none => simp [hm] at hc
+        | some ys =>
+          simp only [hm] at hc
+          rw [mapO_congr_some hm (fun kv hkv y hy => by
+            cases hck : content f h kv.2 with
+            | none => simp [hck] at hy
+            | some tk =>
+              simp only [hck, Option.map_some] at hy
+              rw [content_sub sub wf f kv.2 tk (hmem kv hkv) hck]
+              exact hy)]
+          exact hc
+      · simp only [ho] at hc ⊢
+        cases hm : mapO b.items (fun kv => content f h kv.2) with
+        | none => simp [hm] at hc
+        | some ys =>
+          simp only [hm] at hc
+          rw [mapO_congr_some hm (fun kv hkv y hy => content_sub sub wf f kv.2 y (hmem kv hkv) hy)]
+          exact hc
+
+
+/-! ## assign_spec -/
+
+theorem writeLoc_frame {σ σ' : State} {l : Loc} {v : V} (hw : Var.writeLoc σ l v = .ok σ') :
+    ∀ id, parentOf l ≠ some id → getB σ'.heap id = getB σ.heap id := by
+  intro id hne
+  cases l with
+  | slot k =>
+    simp only [Var.writeLoc] at hw
+    split at hw
+    · cases hw; rfl
+    · cases hw
+  | item P i =>
+    have hP : id ≠ P := by intro e; exact hne (by simp [parentOf, e])
+    simp only [Var.writeLoc] at hw
+    cases hb : getB σ.heap P with
+    | error e => simp [hb] at hw
+    | ok b =>
+      simp only [hb] at hw
+      split at hw
+      · cases hw
+        simp only [setB]; rw [getB_set_ne _ hP]
+      · cases hw
+
+theorem readLoc_held {σ : State} {l : Loc} {v : V} (hr : readLoc σ l = .ok v) : v ∈ σ.slots ∨ v ∈ hvals σ.heap := by
+  cases l with
+  | slot k =>
+    simp only [readLoc] at hr
+    cases hk : σ.slots[k]? with
+    | none => simp [hk] at hr
+    | some x => simp only [hk, Except.ok.injEq] at hr; subst hr; exact Or.inl (List.mem_of_getElem? hk)
+  | item P i =>
+    simp only [readLoc] at hr
+    cases hb : getB σ.heap P with
+    | error e => simp [hb] at hr
+    | ok b =>
+      simp only [hb] at hr
+      cases hi : b.items[i]? with
+      | none => simp [hi] at hr
+      | some kv =>
+        simp only [hi, Except.ok.injEq] at hr; subst hr
+        exact Or.inr (mem_hvals_of_getB hb (List.mem_map_of_mem (List.mem_of_getElem? hi)))
+
+/-- reading a location after a heap change that keeps (when it is still alive) the block of the location -/
+theorem readLoc_sub {σ : State} {h' : Heap} (sub : SubItems σ.heap h') {l : Loc} {v v' : V}
+    (hr : readLoc σ l = .ok v) (hr' : readLoc { σ with heap := h' } l = .ok v') : v' = v := by
+  cases l with
+  | slot k => simp only [readLoc] at hr hr'; rw [hr] at hr'; cases hr'; rfl
+  | item P i =>
+    simp only [readLoc] at hr hr'
+    cases hb' : getB h' P with
+    | error e => simp [hb'] at hr'
+    | ok b' =>
+      obtain ⟨b, hb, e1, _, _⟩ := sub.2 P b' hb'
+      simp only [hb] at hr
+      simp only [hb', e1] at hr'
+      rw [hr] at hr'; cases hr'; rfl
+
+/-- **assign_spec**, at the level of `operator=(const Var&)`: after `target = src` — for any held source, in
+particular one stored inside the target — the target Var (if it survives the release of its old content, which it
+always does when it is a root variable) holds `src`, and `src` denotes the same tree as before. -/
+theorem Inv.assignV_spec {σ σ' : State} {t : Loc} {src : V} (inv : Inv σ []) (hl : ValidLoc σ t) (hs : LiveV σ.heap src)
+    (hself : ∀ id, parentOf t = some id → handleOf src ≠ some id)
+    (hreach : ∀ B, parentOf t = some B → ∃ f', reaches f' σ.heap B src = .ok false)
+    (ha : Var.assignV σ t src = .ok σ') :
+    (∀ v', readLoc σ' t = .ok v' → v' = src) ∧
+    (∀ k, t = .slot k → readLoc σ' t = .ok src) ∧
+    (∀ f tr, content f σ.heap src = some tr → readLoc σ' t = .ok src → content f σ'.heap src = some tr) := by
+  obtain ⟨old, hr, hheld⟩ := readLoc_valid hl []
+  clear hheld
+  unfold Var.assignV at ha
+  rw [hr] at ha
+  dsimp only at ha
+  split at ha
+  · -- STRING := STRING in place
+    rename_i s0 s
+    obtain ⟨σ1, old', _, hw, _, _, hrd⟩ := ((Inv.scalar (v := V.str s) rfl).mpr inv).writeLoc hl (fun _ _ => by simp [handleOf])
+    rw [hw] at ha; cases ha
+    refine ⟨fun v' hv' => by rw [hrd] at hv'; cases hv'; rfl, fun _ _ => hrd, fun f tr hc _ => ?_⟩
+    rw [content_scalar_indep (v := V.str s) rfl]; exact hc
+  · obtain ⟨h1, hc, inv1, same⟩ := inv.copyLive hs
+    simp only [hc] at ha
+    have hl1 : ValidLoc { σ with heap := h1 } t := (SameDom.of_same same).validLoc hl
+    obtain ⟨σ2, old', hr', hw, inv2, dom, hrd2⟩ := inv1.writeLoc hl1 hself
+    rw [readLoc_same same t hr] at hr'; cases hr'
+    simp only [hw] at ha
+    -- what `src` denotes after the copy and the write
+    have hcont2 : ∀ f tr, content f σ.heap src = some tr → content f σ2.heap src = some tr := by
+      intro f tr hct
+      cases hp : parentOf t with
+      | none =>
+        -- a root variable: only reference counts changed
+        have : σ2.heap = h1 := by
+          cases t with
+          | slot k =>
+            simp only [Var.writeLoc] at hw
+            split at hw
+            · cases hw; rfl
+            · cases hw
+          | item P i => simp [parentOf] at hp
+        rw [this]; exact content_same same f src tr hct
+      | some B =>
+        obtain ⟨f', hf'⟩ := hreach B hp
+        have ag : AgreeOutside B σ.heap σ2.heap := by
+          intro id hne b hb
+          obtain ⟨b1, hb1, e1, e2, _⟩ := same.get hb
+          refine ⟨b1, ?_, e1, e2⟩
+          rw [writeLoc_frame hw id (by rw [hp]; intro e; cases e; exact hne rfl)]
+          exact hb1
+        exact content_frame ag f' f src tr hf' hct
+    by_cases hpod : isPod old = true
+    · simp only [hpod, if_true] at ha
+      cases ha
+      exact ⟨fun v' hv' => by rw [hrd2] at hv'; cases hv'; rfl, fun _ _ => hrd2, fun f tr hct _ => hcont2 f tr hct⟩
+    · simp only [hpod] at ha
+      obtain ⟨h3, hd, inv3, sub⟩ := Inv.drop (σ := σ2) (wl := [old]) (T := []) (by simpa using inv2)
+      simp only [hd] at ha
+      cases ha
+      refine ⟨fun v' hv' => readLoc_sub sub hrd2 hv', ?_, ?_⟩
+      · intro k hk; subst hk
+        simp only [readLoc] at hrd2 ⊢
+        exact hrd2
+      · intro f tr hct hrd3
+        have hheld := readLoc_held hrd3
+        exact content_sub sub inv3.wf f src tr (hheld.elim (fun h => Or.inl (by simpa using h)) Or.inr) (hcont2 f tr hct)
+
+
+theorem cycleGuard_ok {h : Heap} {p : Option Nat} {src : V} (hg : cycleGuard h p src = .ok ()) :
+    wouldCycle h p src = .ok false := by
+  unfold cycleGuard at hg
+  cases hw : wouldCycle h p src with
+  | error e => simp [hw] at hg
+  | ok b => cases b with
+    | true => simp [hw] at hg
+    | false => rfl
+
+/-! ## clone_deep -/
+
+/-- every block of `h` is also (identically) in `h1` -/
+theorem content_mono {h h1 : Heap} (hm : ∀ id b, getB h id = .ok b → getB h1 id = .ok b) : ∀ (f : Nat) (v : V) (t : Tree),
+    content f h v = some t → content f h1 v = some t
+  | 0, _, _, hc => by simp [content] at hc
+  | f + 1, v, t, hc => by
+    cases hh : handleOf v with
+    | none => rw [content_scalar_indep hh]; exact hc
+    | some id =>
+      cases hb : getB h id with
+      | error e' =>
+        rw [content_handle_none hh (by intro b hb'; rw [hb] at hb'; cases hb')] at hc; cases hc
+      | ok b =>
+        rw [content_handle hh hb] at hc
+        rw [content_handle hh (hm id b hb)]
+        by_cases ho : isObjV v = true
+        · simp only [ho, if_true] at hc ⊢
+          cases hmm : mapO b.items (fun kv => (content f h kv.2).map (fun t => (kv.1, t))) with
+          | none => simp [hmm] at hc
+          | some ys =>
+            simp only [hmm] at hc
+            rw [mapO_congr_some hmm (fun kv _ y hy => by
+              cases hck : content f h kv.2 with
+              | none => simp [hck] at hy
+              | some tk =>
+                simp only [hck, Option.map_some] at hy
+                rw [content_mono hm f kv.2 tk hck]
+                exact hy)]
+            exact hc
+        · simp only [ho] at hc ⊢
+          cases hmm : mapO b.items (fun kv => content f h kv.2) with
+          | none => simp [hmm] at hc
+          | some ys =>
+            simp only [hmm] at hc
+            rw [mapO_congr_some hmm (fun kv _ y hy => content_mono hm f kv.2 y hy)]
+            exact hc
+
+theorem getB_append_mono {h : Heap} (x : Heap) : ∀ id b, getB h id = .ok b → getB (h ++ x) id = .ok b := by
+  intro id b hb
+  rw [getB_append_left _ (getB_lt hb)]; exact hb
+
+/-- `h''` still has every block of `h'` whose id is at least `N`, with the same elements -/
+def KeepsFrom (N : Nat) (h' h'' : Heap) : Prop :=
+  ∀ id, N ≤ id → ∀ b, getB h' id = .ok b → ∃ b'', getB h'' id = .ok b'' ∧ b''.items = b.items ∧ b''.isObj = b.isObj
+
+/-- the object form of the element contents from the array form and the keys -/
+theorem mapO_pair {g : V → Option Tree} : ∀ (l : List (Bytes × V)),
+    mapO l (fun kv => (g kv.2).map (fun t => (kv.1, t))) = (mapO l (fun kv => g kv.2)).map (fun ys => (l.map (·.1)).zip ys)
+  | [] => rfl
+  | (k, x) :: rest => by
+    simp only [mapO, mapO_pair rest]
+    cases g x with
+    | none => rfl
+    | some y =>
+      simp only [Option.map_some]
+      cases mapO rest (fun kv => g kv.2) with
+      | none => rfl
+      | some ys => rfl
+
+/-- what a clone denotes, in every heap that keeps the blocks allocated from `N` on -/
+def CloneSpec (f : Nat) : Prop :=
+  ∀ (N : Nat) (h h' : Heap) (v c : V) (t : Tree), N ≤ h.length → cloneV f h v = .ok (h', c) → content f h v = some t →
+    (∃ y, h' = h ++ y) ∧ ∀ h'', KeepsFrom N h' h'' → content f h'' c = some t
+
+theorem cloneItems_spec {f : Nat} (ih : CloneSpec f) (N : Nat) : ∀ (items : List (Bytes × V)) (h0 h' : Heap)
+    (items' : List (Bytes × V)) (ts : List Tree), N ≤ h0.length →
+    mapHeapE (cloneV f) h0 items = .ok (h', items') → mapO items (fun kv => content f h0 kv.2) = some ts →
+    (∃ y, h' = h0 ++ y) ∧ items'.map (·.1) = items.map (·.1) ∧
+      ∀ h'', KeepsFrom N h' h'' → mapO items' (fun kv => content f h'' kv.2) = some ts
+  | [], h0, h', items', ts, _, hm, hc => by
+    simp only [mapHeapE, Except.ok.injEq, Prod.mk.injEq] at hm
+    obtain ⟨rfl, rfl⟩ := hm
+    simp only [mapO, Option.some.injEq] at hc
+    subst hc
+    exact ⟨⟨[], by simp⟩, rfl, fun _ _ => rfl⟩
+  | (k, x) :: rest, h0, h', items', ts, hN, hm, hc => by
+    simp only [mapHeapE] at hm
+    cases hcx : cloneV f h0 x with
+    | error e => simp [hcx] at hm
+    | ok r =>
+      obtain ⟨h1, x'⟩ := r
+      simp only [hcx] at hm
+      cases hcr : mapHeapE (cloneV f) h1 rest with
+      | error e => simp [hcr] at hm
+      | ok r2 =>
+        obtain ⟨h2, rest'⟩ := r2
+        simp only [hcr, Except.ok.injEq, Prod.mk.injEq] at hm
+        obtain ⟨rfl, rfl⟩ := hm
+        simp only [mapO] at hc
+        cases hx0 : content f h0 x with
+        | none => simp [hx0] at hc
+        | some t0 =>
+          simp only [hx0] at hc
+          cases hr0 : mapO rest (fun kv => content f h0 kv.2) with
+          | none => simp [hr0] at hc
+          | some ts' =>
+            simp only [hr0, Option.some.injEq] at hc
+            subst hc
+            obtain ⟨⟨y1, hy1⟩, hx'⟩ := ih N h0 h1 x x' t0 hN hcx hx0
+            have hr1 : mapO rest (fun kv => content f h1 kv.2) = some ts' := by
+              rw [hy1]
+              exact mapO_congr_some hr0 (fun kv _ y hy => content_mono (getB_append_mono y1) f kv.2 y hy)
+            obtain ⟨⟨y2, hy2⟩, hkeys, hrest⟩ := cloneItems_spec ih N rest h1 h2 rest' ts' (by rw [hy1]; simp; omega) hcr hr1
+            refine ⟨⟨y1 ++ y2, by rw [hy2, hy1, List.append_assoc]⟩, by simp [hkeys], ?_⟩
+            intro h'' hk
+            have hk1 : KeepsFrom N h1 h'' := by
+              intro id hid b hb
+              exact hk id hid b (by rw [hy2]; exact getB_append_mono y2 id b hb)
+            simp only [mapO, hx' h'' hk1, hrest h'' hk]
+
+theorem cloneSpec : ∀ f, CloneSpec f
+  | 0 => by intro N h h' v c t _ hc; simp [cloneV] at hc
+  | f + 1 => by
+    intro N h h' v c t hN hcl hct
+    simp only [cloneV] at hcl
+    cases hh : handleOf v with
+    | none =>
+      simp only [hh, Except.ok.injEq, Prod.mk.injEq] at hcl
+      obtain ⟨rfl, rfl⟩ := hcl
+      exact ⟨⟨[], by simp⟩, fun h'' _ => by rw [content_scalar_indep hh]; exact hct⟩
+    | some id =>
+      simp only [hh] at hcl
+      cases hb : getB h id with
+      | error e => simp [hb] at hcl
+      | ok b =>
+        simp only [hb] at hcl
+        cases hm : mapHeapE (cloneV f) h b.items with
+        | error e => simp [hm] at hcl
+        | ok r =>
+          obtain ⟨h1, items'⟩ := r
+          simp only [hm, allocB, Except.ok.injEq, Prod.mk.injEq] at hcl
+          obtain ⟨rfl, rfl⟩ := hcl
+          rw [content_handle hh hb] at hct
+          -- the element contents in array form
+          have harr : ∃ ts, mapO b.items (fun kv => content f h kv.2) = some ts ∧
+              t = (if isObjV v then Tree.obj ((b.items.map (·.1)).zip ts) else Tree.arr ts) := by
+            by_cases ho : isObjV v = true
+            · simp only [ho, if_true] at hct ⊢
+              rw [mapO_pair] at hct
+              cases hmm : mapO b.items (fun kv => content f h kv.2) with
+              | none => simp [hmm] at hct
+              | some ts => simp only [hmm, Option.map_some, Option.some.injEq] at hct; exact ⟨ts, rfl, hct.symm⟩
+            · simp only [ho] at hct ⊢
+              cases hmm : mapO b.items (fun kv => content f h kv.2) with
+              | none => simp [hmm] at hct
+              | some ts => simp only [hmm, Option.map_some, Option.some.injEq] at hct; exact ⟨ts, rfl, by simpa using hct.symm⟩
+          obtain ⟨ts, hts, ht⟩ := harr
+          obtain ⟨⟨y, hy⟩, hkeys, hitems⟩ := cloneItems_spec (cloneSpec f) N b.items h h1 items' ts hN hm hts
+          refine ⟨⟨y ++ [some { isObj := b.isObj, items := items', cap := max items'.length 3, rc := 1 }], by rw [hy, List.append_assoc]⟩, ?_⟩
+          intro h'' hk
+          have hN1 : N ≤ h1.length := by rw [hy]; simp; omega
+          obtain ⟨b'', hb'', e1, e2⟩ := hk h1.length hN1 _ (getB_alloc_new h1 _)
+          have hk1 : KeepsFrom N h1 h'' := by
+            intro id hid b0 hb0
+            exact hk id hid b0 (getB_append_mono _ id b0 hb0)
+          have hcont := hitems h'' hk1
+          have hhid : handleOf (mkHandle (isObjV v) h1.length) = some h1.length := handleOf_mkHandle _ _
+          rw [content_handle hhid hb'', e1, isObjV_mkHandle, ht]
+          by_cases ho : isObjV v = true
+          · simp only [ho, if_true]
+            rw [mapO_pair, hcont, hkeys]; rfl
+          · simp only [ho]
+            rw [hcont]; rfl
 
 
 end AslModel.Var
